@@ -82,7 +82,6 @@ CallViolations(e) ==
                \cup (IF \E i \in 1..Len(r.tin) : ~m[i] /\ r.ftab[i][1] # 0 /\ i \notin RangeOf(r.asmtoks) THEN {<<"C07", "outside_formatted">>} ELSE {})
           ELSE {})
   \cup (IF Wants(e, "C12") /\ "tout" \in DOMAIN r THEN {<<"C12", c>> : c \in C12_Violations(r)} ELSE {})
-  \cup (IF "stages" \in DOMAIN r THEN {v \in StageViolations(r) : Wants(e, v[1])} ELSE {})
   \cup (IF Wants(e, "C14") /\ "plines" \in DOMAIN r THEN {<<"C14", c>> : c \in C14_Violations(r)} ELSE {})
   \cup (IF Wants(e, "C15") /\ "ftab" \in DOMAIN r THEN {<<"C15", c>> : c \in C15_Violations(r)} ELSE {})
 
@@ -94,6 +93,9 @@ TraceCall == /\ IsEvent("Call")
              /\ LET vs == CallViolations(Rec[l]) IN
                 \A v \in vs : Report("VIOL", [sid |-> Rec[l].sid, call |-> Len(calls) + 1, prop |-> v[1], clause |-> v[2]])
              /\ ("stages" \in DOMAIN Rec[l].c) => \A d \in StageDrift(Rec[l].c) : Report("DRIFT", [sid |-> Rec[l].sid, module |-> "Pipeline", clause |-> d])
+             \* (what the stage snapshots say about C01 / C07 is a statement about internal tables: the end-to-end predicates
+             \* above are the judges; a disagreement of the snapshots with the models is drift)
+             /\ ("stages" \in DOMAIN Rec[l].c) => \A v \in StageViolations(Rec[l].c) : Report("DRIFT", [sid |-> Rec[l].sid, module |-> "Pipeline", clause |-> v[2]])
              /\ ("stages" \in DOMAIN Rec[l].c) => Report("STAGES", [sid |-> Rec[l].sid])
              /\ ("reflow" \in DOMAIN Rec[l].c) => \A d \in ReflowDrift(Rec[l].c) : Report("DRIFT", [sid |-> Rec[l].sid, module |-> "Reflow", clause |-> d])
              /\ ("reflow" \in DOMAIN Rec[l].c) => Report("REFLOW", [sid |-> Rec[l].sid, rewritten |-> Len(Rec[l].c.reflow.rewritten), queued |-> Rec[l].c.reflow.n])
